@@ -199,3 +199,147 @@ Proof.
   - destruct D as [D|D]; [now left|right]. now rewrite <- (Permutation_length P).
   - exists sp, sp2. auto.
 Qed.
+
+(* ---- Image.get_volume_geometry / Segmentation.get_volume_geometry ------------------------------------ *)
+(* the geometry is accepted exactly when get_volume_positions, called with the declarations the CALLER made
+   (or the defaults of the class when not passed), accepts; slices = largest index + 1, origin = position
+   of the first frame with index 0 *)
+Lemma geometry_sound : forall ps rowc colc hint rtol atol seg om od g,
+  multiframe_geometry ps rowc colc hint rtol atol seg om od = Ok (Some g) <->
+  exists sp idx j0,
+    get_volume_positions ps rowc colc (vol_opts rtol atol (eff_missing seg om) (eff_dups od) hint)
+      = Ok (Some (sp, idx)) /\
+    zindex 0%Z idx = Some j0 /\
+    g = mkGeom (zmax_list idx + 1)%Z sp (nthV ps j0) (cross colc rowc).
+Proof.
+  intros. unfold multiframe_geometry.
+  destruct (get_volume_positions ps rowc colc _) as [[[sp idx]|]|k].
+  - destruct (zindex 0%Z idx) as [j0|] eqn:Z0.
+    + split.
+      * intro H. injection H as <-. exists sp, idx, j0. auto.
+      * intros [sp' [idx' [j0' [E [Z1 ->]]]]]. injection E as <- <-. rewrite Z0 in Z1. injection Z1 as <-. reflexivity.
+    + split; [discriminate|]. intros [sp' [idx' [j0' [E [Z1 _]]]]]. injection E as <- <-. congruence.
+  - split; [discriminate|]. intros [sp' [idx' [j0' [E _]]]]. discriminate.
+  - split; [destruct (String.eqb k "RuntimeError"); discriminate|]. intros [sp' [idx' [j0' [E _]]]]. discriminate.
+Qed.
+
+(* None (the stack is not a volume) exactly when get_volume_positions rejects or raises RuntimeError *)
+Lemma geometry_none_iff : forall ps rowc colc hint rtol atol seg om od,
+  multiframe_geometry ps rowc colc hint rtol atol seg om od = Ok None <->
+  (get_volume_positions ps rowc colc (vol_opts rtol atol (eff_missing seg om) (eff_dups od) hint) = Ok None \/
+   get_volume_positions ps rowc colc (vol_opts rtol atol (eff_missing seg om) (eff_dups od) hint)
+     = Err "RuntimeError"%string).
+Proof.
+  intros. unfold multiframe_geometry.
+  destruct (get_volume_positions ps rowc colc _) as [[[sp idx]|]|k].
+  - destruct (zindex 0%Z idx); split; try discriminate; intros [H|H]; discriminate.
+  - split; auto.
+  - destruct (String.eqb k "RuntimeError") eqn:E.
+    + apply String.eqb_eq in E. subst k. split; auto.
+    + split; [discriminate|]. intros [H|H]; [discriminate|]. injection H as ->. rewrite String.eqb_refl in E. discriminate.
+Qed.
+
+(* duplicates declared as not allowed: a stack in which two frames share a position is never accepted,
+   whatever the declaration about gaps *)
+Lemma geometry_duplicates_refused : forall ps rowc colc hint rtol atol seg om od g,
+  eff_dups od = false -> (2 <= length ps)%nat ->
+  (length (lexuniq (map vred ps)) < length ps)%nat ->
+  multiframe_geometry ps rowc colc hint rtol atol seg om od <> Ok (Some g).
+Proof.
+  intros ps rowc colc hint rtol atol seg om od g D L U H.
+  apply geometry_sound in H. destruct H as [sp [idx [j0 [G _]]]].
+  destruct (gvp_sound _ _ _ _ _ _ L G) as [h [rt [at_ [nv [_ [_ [_ [_ [Hd _]]]]]]]]].
+  cbn [vol_opts o_dups] in Hd. specialize (Hd D). lia.
+Qed.
+
+Lemma zmax_fold_ge l : forall a, (a <= fold_left Z.max l a)%Z.
+Proof. induction l as [|x l IH]; intro a; cbn [fold_left]; [lia|]. specialize (IH (Z.max a x)). lia. Qed.
+Lemma zmax_fold_in l : forall a x, In x l -> (x <= fold_left Z.max l a)%Z.
+Proof.
+  induction l as [|y l IH]; intros a x []; cbn [fold_left].
+  - subst y. pose proof (zmax_fold_ge l (Z.max a x)). lia.
+  - now apply IH.
+Qed.
+Lemma zmax_fold_le l B : forall a, (a <= B)%Z -> (forall x, In x l -> (x <= B)%Z) -> (fold_left Z.max l a <= B)%Z.
+Proof.
+  induction l as [|y l IH]; intros a Ha Hl; cbn [fold_left]; [exact Ha|].
+  apply IH; [|intros x Hx; apply Hl; now right]. specialize (Hl y (or_introl eq_refl)). lia.
+Qed.
+
+Lemma zindex_map {A} (f : A -> Z) (l : list A) d : (exists x, In x l /\ f x = 0%Z) ->
+  exists j0, zindex 0%Z (map f l) = Some j0 /\ (j0 < length l)%nat /\ f (nth j0 l d) = 0%Z.
+Proof.
+  induction l as [|y l IH]; intros [x [I E]]; [contradiction|]. cbn [map zindex].
+  destruct (Z.eqb (f y) 0) eqn:Ey.
+  - exists 0%nat. apply Z.eqb_eq in Ey. cbn. repeat split; [lia|exact Ey].
+  - destruct I as [->|I]; [apply Z.eqb_neq in Ey; contradiction|].
+    destruct IH as [j [Zj [Lj Fj]]]; [now exists x|]. rewrite Zj. exists (S j). cbn. repeat split; [lia|exact Fj].
+Qed.
+
+(* regular_accepted for the geometry: a regular stack (ranks 0..M-1 along the normal, any frame order,
+   several frames per plane iff duplicates are allowed - by declaration or by default) is accepted with
+   M slices, spacing s, and the position of a rank-0 frame as origin *)
+Lemma geometry_regular_accepted : forall ps rowc colc rtol atol seg om od nv rt at_ a s r M,
+  eff_missing seg om = false ->
+  tolerances rtol atol = Ok (rt, at_) -> 0 <= rt -> 0 <= at_ ->
+  normal_vector rowc colc DirD DirR true = Ok nv ->
+  regular_stack nv a s r M (map vred ps) ->
+  (eff_dups od = true \/ length ps = M) ->
+  exists g, multiframe_geometry ps rowc colc None rtol atol seg om od = Ok (Some g) /\
+    g_nsl g = Z.of_nat M /\ g_spacing g == s /\ In (g_origin g) ps /\ r (vred (g_origin g)) = 0%nat /\
+    g_normal g = cross colc rowc.
+Proof.
+  intros ps rowc colc rtol atol seg om od nv rt at_ a s r M Hm T Hr Ha N R D.
+  destruct (regular_accepted ps rowc colc (vol_opts rtol atol (eff_missing seg om) (eff_dups od) None)
+              nv rt at_ a s r M) as [sp [Esp G]]; try assumption; try reflexivity.
+  destruct R as [S [M2 [H1 [H3 [Hc [Hl Hp]]]]]].
+  destruct (zindex_map (fun p => Z.of_nat (r p)) (map vred ps) (vred (V3 0 0 0))) as [j0 [Z0 [L0 F0]]].
+  { destruct (Hc 0%nat) as [p [Ip Ep]]; [lia|]. exists p. split; [exact Ip|]. now rewrite Ep. }
+  rewrite map_length in L0. rewrite map_nth in F0.
+  exists (mkGeom (zmax_list (map (fun p => Z.of_nat (r p)) (map vred ps)) + 1)%Z sp (nthV ps j0) (cross colc rowc)).
+  split; [apply geometry_sound; exists sp, (map (fun p => Z.of_nat (r p)) (map vred ps)), j0; auto|].
+  cbn [g_nsl g_spacing g_origin g_normal]. unfold nthV. repeat split.
+  - unfold zmax_list.
+    assert (U : (fold_left Z.max (map (fun p => Z.of_nat (r p)) (map vred ps)) 0 <= Z.of_nat M - 1)%Z).
+    { apply zmax_fold_le; [lia|]. intros x Hx. apply in_map_iff in Hx. destruct Hx as [p [<- Ip]].
+      specialize (Hl p Ip). lia. }
+    assert (Lo : (Z.of_nat M - 1 <= fold_left Z.max (map (fun p => Z.of_nat (r p)) (map vred ps)) 0)%Z).
+    { apply zmax_fold_in. destruct (Hc (M - 1)%nat) as [p [Ip Ep]]; [lia|]. apply in_map_iff. exists p.
+      split; [rewrite Ep; lia|exact Ip]. }
+    lia.
+  - exact Esp.
+  - apply nth_In. exact L0.
+  - cbv beta in F0. lia.
+Qed.
+
+(* order_invariant for the geometry of regular stacks: frames in any order give the same number of slices,
+   the same spacing, the same slice axis and the same (rank-0) origin *)
+Lemma geometry_order_invariant : forall ps ps2 rowc colc rtol atol seg om od nv rt at_ a s r M,
+  eff_missing seg om = false ->
+  tolerances rtol atol = Ok (rt, at_) -> 0 <= rt -> 0 <= at_ ->
+  normal_vector rowc colc DirD DirR true = Ok nv ->
+  regular_stack nv a s r M (map vred ps) ->
+  (eff_dups od = true \/ length ps = M) ->
+  Permutation ps ps2 ->
+  exists g g2,
+    multiframe_geometry ps rowc colc None rtol atol seg om od = Ok (Some g) /\
+    multiframe_geometry ps2 rowc colc None rtol atol seg om od = Ok (Some g2) /\
+    g_nsl g = g_nsl g2 /\ g_spacing g == g_spacing g2 /\
+    veqb (vred (g_origin g)) (vred (g_origin g2)) = true /\ g_normal g = g_normal g2.
+Proof.
+  intros ps ps2 rowc colc rtol atol seg om od nv rt at_ a s r M Hm T Hr Ha N R D P.
+  assert (R2 : regular_stack nv a s r M (map vred ps2)) by (eapply regular_stack_perm; [|exact R]; now apply Permutation_map).
+  destruct (geometry_regular_accepted ps rowc colc rtol atol seg om od nv rt at_ a s r M)
+    as [g [G [Gn [Gs [Gi [Gr Gv]]]]]]; try assumption.
+  destruct (geometry_regular_accepted ps2 rowc colc rtol atol seg om od nv rt at_ a s r M)
+    as [g2 [G2 [Gn2 [Gs2 [Gi2 [Gr2 Gv2]]]]]]; try assumption.
+  { destruct D as [D|D]; [now left|right]. now rewrite <- (Permutation_length P). }
+  exists g, g2. repeat split; try assumption.
+  - congruence.
+  - rewrite Gs, Gs2. reflexivity.
+  - destruct R as [_ [_ [_ [H3 _]]]]. apply H3.
+    + apply in_map, Gi.
+    + apply in_map. eapply Permutation_in; [symmetry; exact P|exact Gi2].
+    + congruence.
+  - congruence.
+Qed.
